@@ -100,13 +100,20 @@ class TagEquivalence(BCheck):
     contract = ("for the same inputs, the --tag=PS and the --tag=HP outputs decode to the same (phase set, haplotype alleles) per call, with WhatsHap's "
                 "reader and with an independent decoder, and the alleles are those of the solver's super-reads; WhatsHap can read its own output")
     rule = ("seeded scenarios (1-3 samples, 1-2 contigs, 1-3 phase-input VCFs with interleaved blocks, het genotypes written in either order "
-            "0/1 or 1/0, hom/missing calls in between); non-trivial = at least one call phased")
+            "0/1 or 1/0, hom/missing calls in between); every fourth run with --distrust-genotypes --include-homozygous on inputs whose reads claim het at homozygous "
+            "sites, so that genotypes change; non-trivial = at least one call phased")
     budget_s = {"quick": 90, "thorough": 900}
     chunk = 10
 
     def inputs(self, tier, rng):
         for i in range(1500 if tier == "quick" else 25000):
             r = random.Random(rng.getrandbits(64))
+            if i % 4 == 3:
+                # --distrust-genotypes with reads that claim het at homozygous sites: genotypes change, and the changed calls must decode alike under PS and HP
+                g = PH.generate(r, k_files=(2, 4), error_rate=0.05, hom_as_het=0.5, main_kwargs=dict(n_samples=(1, 2), n_records=(4, 8), duplicates=0, extra_format=False,
+                                kinds=("snv", "snv", "ins", "del"), gt_kinds=("het", "het", "het", "het_rev", "homref", "homalt")))
+                yield dict(main_vcf=g["main_vcf"], phase_vcfs=g["phase_vcfs"], distrust=True)
+                continue
             g = PH.generate(r, k_files=(1, 3), main_kwargs=dict(n_samples=(1, 3), n_records=(4, 9), duplicates=0), input_tag="mixed" if i % 2 else "PS")
             yield dict(main_vcf=g["main_vcf"], phase_vcfs=g["phase_vcfs"])
 
@@ -115,7 +122,8 @@ class TagEquivalence(BCheck):
         dec = {}
         sol = {}
         for tag in ("PS", "HP"):
-            res = run_phase(inp["main_vcf"], inp["phase_vcfs"], tag=tag)
+            kw = dict(distrust_genotypes=True, include_homozygous=True) if inp.get("distrust") else {}
+            res = run_phase(inp["main_vcf"], inp["phase_vcfs"], tag=tag, **kw)
             if res["error"]:
                 return dict(expected="run_whatshap --tag=%s succeeds" % tag, observed=res["error"], traceback=res.get("traceback"))
             try:
@@ -160,15 +168,35 @@ class Reproduce(BCheck):
         for i in range(1000 if tier == "quick" else 20000):
             r = random.Random(rng.getrandbits(64))
             # every fifth run phases 5-8 unrelated samples at once: the documented coverage cap (15) is per sample, however many samples a run has
+            if i % 7 == 6:
+                # --only-snvs with records at duplicate positions (an indel and an SNV at one position): the SNV is the record that is read from the phase input
+                # and phased in the output
+                g = PH.generate(r, k_files=(1, 1), main_kwargs=dict(n_samples=(1, 2), n_records=(5, 10), duplicates=0.5, kinds=("snv", "snv", "ins", "del")), input_tag="PS")
+                yield dict(main_vcf=g["main_vcf"], phase_vcfs=g["phase_vcfs"], tag="PS" if i % 2 else "HP", only_snvs=True)
+                continue
             g = PH.generate(r, k_files=(1, 1), main_kwargs=dict(n_samples=(5, 8) if i % 5 == 4 else (1, 2), n_records=(4, 10), duplicates=0), input_tag="HP" if i % 3 == 0 else "PS")
             yield dict(main_vcf=g["main_vcf"], phase_vcfs=g["phase_vcfs"], tag="PS" if i % 2 else "HP")
 
     def check(self, inp):
         from runtime.phase_driver import run_phase
-        res = run_phase(inp["main_vcf"], inp["phase_vcfs"], tag=inp["tag"])
+        res = run_phase(inp["main_vcf"], inp["phase_vcfs"], tag=inp["tag"], only_snvs=bool(inp.get("only_snvs")))
         if res["error"]:
             return dict(expected="run succeeds", observed=res["error"], traceback=res.get("traceback"))
         want = independent_decode(inp["phase_vcfs"][0])
+        if inp.get("only_snvs"):
+            # only SNV records take part; at a position that several records share, the first SNV record is the one that counts
+            samples_, recs_, phase_ = PH.decode_phasing(inp["phase_vcfs"][0])
+            want = {s_: {} for s_ in samples_}
+            seen_pos = set()
+            for ri, rec in enumerate(recs_):
+                if not (len(rec["ref"]) == 1 and len(rec["alts"]) == 1 and len(rec["alts"][0]) == 1 and not rec["alts"][0].startswith("<")):
+                    continue
+                if (rec["chrom"], rec["pos"]) in seen_pos:
+                    continue
+                seen_pos.add((rec["chrom"], rec["pos"]))
+                for s_ in samples_:
+                    if ri in phase_[s_]:
+                        want[s_][(rec["chrom"], rec["pos"] - 1)] = phase_[s_][ri][:2]
         got = independent_decode(res["out"])
         for s, m in want.items():
             blocks = {}
